@@ -167,11 +167,11 @@ func (m *Merger) mergeTables(colDiff *diff.ColDiff, mergeChan chan<- *Merge, err
 
 func (m *Merger) Start() (ch <-chan *Merge, err error) {
 	n := len(m.otherTs)
-	var pk []string
+	// rows are matched by the hash of their key cells in declared order: every version,
+	// the base included, has to declare the same key
+	pk := m.baseT.PrimaryKey()
 	for _, t := range m.otherTs {
-		if pk == nil {
-			pk = t.PrimaryKey()
-		} else if !strSliceEqual(pk, t.PrimaryKey()) {
+		if !strSliceEqual(pk, t.PrimaryKey()) {
 			return nil, fmt.Errorf("can't merge: primary key differs between versions")
 		}
 	}
